@@ -164,7 +164,7 @@ def plan(tier, seed):
     jobs = []
     for kind in KINDS:
         for tool in ('convert', 'upgrade-yaml', 'upgrade-json', 'generator',
-                     'redundant', 'upgrade-2ns'):
+                     'redundant', 'upgrade-2ns', 'upgrade-inplace'):
             for i in range(4 if tier == 'quick' else 24):
                 jobs.append({'space': tool, 'kind': kind, 'shard': i,
                              'of': 4 if tier == 'quick' else 24,
@@ -282,6 +282,11 @@ def run(job, seed):
                     fmt = 'yaml'
                     h = (len(defaults) + 1) // 2
                     nss = {'ns_a': defaults[:h], 'ns_b': defaults[h:]}
+                out_rel = 'out'
+                if fmt == 'inplace':
+                    # the operator upgrades the file where it lies
+                    fmt = 'yaml'
+                    out_rel = 'in.yaml'
                 ns_args = []
                 for n in sorted(nss):
                     ns_args += ['--namespace', n]
@@ -289,7 +294,7 @@ def run(job, seed):
                     err, _ = run_tool(
                         gen.upgrade_policy,
                         ['--policy', w.path('in.yaml')] + ns_args +
-                        ['--output-file', w.path('out'), '--format', fmt],
+                        ['--output-file', w.path(out_rel), '--format', fmt],
                         conf=cfg.ConfigOpts())
                 acc.ev()
                 if err:
@@ -298,7 +303,8 @@ def run(job, seed):
                 names = sorted((set(reg_names) | set(f)) - set(succ))
                 a = vector(P, defaults, {'policy.yaml': world.dumps_policy(f)},
                            names)
-                b = vector(P, defaults, {'policy.yaml': w.read('out')}, names)
+                b = vector(P, defaults, {'policy.yaml': w.read(out_rel)},
+                           names)
             else:
                 # operator layout: first entry in the main file, the others
                 # in a policy.d file (each name in at most one file)
